@@ -102,6 +102,17 @@ def _find(file, qual, text, tree) -> FuncSrc:
         if not cands:
             raise KeyError(f'{file}: {qual}: {part} not found')
         found = cands[-1]          # last definition wins, as in Python
+        if len(cands) > 1 and node is tree:
+            # several definitions under `if` at module level (platform variants): the one that is LIVE in the imported module
+            try:
+                import inspect
+                live = inspect.unwrap(getattr(import_module(file), part))
+                ln = live.__code__.co_firstlineno
+                for c_ in cands:
+                    if ln in ([c_.lineno] + [d_.lineno for d_ in c_.decorator_list]):
+                        found = c_
+            except Exception:
+                pass
         if isinstance(node, ast.ClassDef) or isinstance(found, ast.ClassDef):
             pass
         if isinstance(found, ast.ClassDef):
